@@ -175,6 +175,23 @@ def run(rep: Report, repo: Repo, tier: str) -> None:
     rep.floor("C19-R3", 2, "-r facts")
     rep.floor("C19-R4", 3, "ARGN facts")
 
+    # ---- R6 the formals reach the command line as given
+    rep.rule("C19-R6", "the input and output formals are passed on as given: no command in the function rebinds them "
+                       "(set, get_filename_component, file(REAL_PATH), string, cmake_path ... with a formal as result variable)")
+    n6 = 0
+    for c, anc in items:
+        if c.name in ("if", "elseif", "else", "endif", "endfunction"):
+            continue
+        for a in c.args:
+            if a.kind == "unquoted" and a.text in (f_in, f_out):
+                n6 += 1
+                rep.bad("C19-R6", where, c.text()[:90],
+                        f"`{c.name}` uses the formal `{a.text}` as a result variable: the path handed to CMinx is no longer the path "
+                        f"the caller gave (symlinks resolved, normalised, ...), so titles, default prefix and page names differ from the "
+                        f"equivalent command line", witness="cminx_gen_rst(<symlink to a directory> out)")
+    rep.ok("C19-R6", where, f"{len(items)} commands inspected, {n6} rebind a formal")
+    rep.floor("C19-R6", 1, "formal-rebinding scan")
+
     # ---- R5 package config
     rep.rule("C19-R5", "the package config defines CMINX_EXECUTABLE before it includes cminx.cmake; the cminx script is cminx:main")
     tsrc = repo.read("cmake/templates/cminx-config.cmake.in")
